@@ -1,7 +1,7 @@
 (* C06 - sum and difference equal the Cartesian sum: structural part.  Pinned theorems only. *)
 From Coq Require Import ZArith List Bool Reals Lra.
 From Flocq Require Import Core BinarySingleNaN.
-Require Import GV.FloatBase GV.FloatLemmas GV.AngleM GV.AngleProofs GV.GeonumM GV.GeonumProofs GV.TraitsM GV.NewProofs GV.CtorProofs GV.PiBounds GV.TrigProofs GV.DotValue GV.DistValue GV.ClosureProofs GV.SumUpper GV.DirProofs GV.SumDir GV.Atan2Ideal.
+Require Import GV.FloatBase GV.FloatLemmas GV.AngleM GV.AngleProofs GV.GeonumM GV.GeonumProofs GV.TraitsM GV.NewProofs GV.CtorProofs GV.PiBounds GV.TrigProofs GV.DotValue GV.DistValue GV.ClosureProofs GV.SumUpper GV.DirProofs GV.SumDir GV.Atan2Ideal GV.SubCart.
 Open Scope R_scope.
 
 (* subtraction IS addition of the half-turned operand, in all four spellings; translate IS addition *)
@@ -111,3 +111,28 @@ Theorem C06_premises_inhabited : exists L : libm,
   atan2_acc L (/ 1125899906842624) /\ / 4503599627370496 <= / 1000.
 Proof. exists ideal_libm2. exact ideal2_hyps. Qed.
 Print Assumptions C06_premises_inhabited.
+
+(* THE CARTESIAN DIFFERENCE: a - b = a + (-b) reproduces |a|(cos,sin)(dir a) - |b|(cos,sin)(dir b) component by
+   component within the same tolerance T, on the general path of the underlying addition *)
+Theorem C06_cartesian_sub : forall (L : libm) (u u2 : R) a b, cos_acc L u -> sin_acc L u -> atan2_acc L u2 -> u <= / 1000 ->
+  canonp (rem (ang a)) -> canonp (rem (ang b)) -> (0 <= blade (ang b))%Z ->
+  let nb := gnegate b in
+  aeqb (ang a) (ang nb) = false ->
+  aeqb (add_vv (ang a) (new one one)) (ang nb) || aeqb (add_vv (ang nb) (new one one)) (ang a) = false ->
+  (0 <= blade (ang a) + blade (ang nb) < 2 ^ 40)%Z ->
+  fin (gadd_rad L a nb) ->
+  fin (fadd (fmul (mag a) (sinF L (grade_angle (ang a)))) (fmul (mag nb) (sinF L (grade_angle (ang nb))))) ->
+  fin (fadd (fmul (mag a) (cosF L (grade_angle (ang a)))) (fmul (mag nb) (cosF L (grade_angle (ang nb))))) ->
+  let r := gsub_vv L a b in
+  let Wx := R_ (mag a) * cos (dir (ang a)) - R_ (mag b) * cos (dir (ang b)) in
+  let Wy := R_ (mag a) * sin (dir (ang a)) - R_ (mag b) * sin (dir (ang b)) in
+  let M := Rabs (R_ (mag a)) + Rabs (R_ (mag b)) in
+  let E := M * (u + 3 / 1000000000000000) + 4 * bpow radix2 (-1075) in
+  let S := R_ (mag a) * R_ (mag a) + R_ (mag b) * R_ (mag b) in
+  let Bnd := S * (u + 1 / 100000000000000) + 10 * bpow radix2 (-1075) in
+  let tolN := R_ eps10 + 3 / 100000000000000 + IZR (blade (ang a) + blade (ang nb)) * (4 / 1000000000000000) in
+  let T := sqrt Bnd * (1 + / 9007199254740992) + / 9007199254740992 * sqrt (Wx * Wx + Wy * Wy) + bpow radix2 (-1075)
+           + 3 * E + (M + 2 * E) * (u2 + tolN) in
+  Rabs (R_ (mag r) * cos (dirR (ang r)) - Wx) <= T /\ Rabs (R_ (mag r) * sin (dirR (ang r)) - Wy) <= T.
+Proof. exact gsub_cartesian. Qed.
+Print Assumptions C06_cartesian_sub.
